@@ -36,11 +36,18 @@ ANCHORS = {
 }
 
 
-def _rooted(node):
-    """Is this Attribute/Subscript chain rooted at Name self/cls?"""
+def _rooted(node, roots=('self', 'cls')):
+    """Is this Attribute/Subscript chain rooted at one of the names in
+    `roots` (self / cls / a parameter that may be a shared object), or does it
+    go through `.Attributes` (model classes are shared by every thread)?"""
+    via_attributes = False
     while isinstance(node, (ast.Attribute, ast.Subscript)):
+        if isinstance(node, ast.Attribute) and node.attr == 'Attributes':
+            via_attributes = True
         node = node.value
-    return isinstance(node, ast.Name) and node.id in ('self', 'cls')
+    if via_attributes and isinstance(node, ast.Name):
+        return True
+    return isinstance(node, ast.Name) and node.id in roots
 
 
 class _Scan(ast.NodeVisitor):
@@ -60,6 +67,12 @@ class _Scan(ast.NodeVisitor):
         if any(c.endswith(PER_REQUEST_CLASSES) for c in self.cls_stack):
             return
         why = None
+        # parameters other than the per-request context may be shared objects
+        roots = set(['self', 'cls'])
+        for a in node.args.args + node.args.kwonlyargs:
+            if 'ctx' not in a.arg and a.arg not in ('inst', 'value', 'element',
+                                        'parent', 'doc', 'retval', 'string'):
+                roots.add(a.arg)
         globs = set()
         for n in ast.walk(node):
             if isinstance(n, ast.Global):
@@ -75,15 +88,15 @@ class _Scan(ast.NodeVisitor):
             for t in targets:
                 for tt in ast.walk(t):
                     if isinstance(tt, (ast.Attribute, ast.Subscript)) and \
-                                                              _rooted(tt):
-                        why = why or 'store through self/cls'
+                                                      _rooted(tt, roots):
+                        why = why or 'store through self/cls/parameter'
                     if isinstance(tt, ast.Name) and tt.id in globs:
                         why = why or 'global assignment'
             if isinstance(n, ast.Call) and isinstance(n.func, ast.Attribute) \
                     and n.func.attr in MUTATORS and \
                     isinstance(n.func.value, (ast.Attribute, ast.Subscript)) \
-                    and _rooted(n.func.value):
-                why = why or 'mutator call on self/cls attribute'
+                    and _rooted(n.func.value, roots):
+                why = why or 'mutator call on self/cls/parameter attribute'
         if why:
             self.found[(self.rel, node.name)] = why
         # nested defs
